@@ -110,6 +110,104 @@ class C07(Prop):
         return st
 
 
+STREAM_TB = [KERNEL, TIE, "model of the adapters' send/receive loops written by hand (MioModel/Stream.lean) over an abstract non-blocking socket",
+             "kernel TCP: reliable FIFO byte stream; non-blocking read returns 1..min(cap, available) bytes, WouldBlock only when nothing is readable, 0 only after FIN; write accepts at most what it is given (assumed)",
+             "mio/epoll: an edge-triggered read event is delivered after data arrives that was not yet consumed (assumed; monitored by the silence-then-deadline oracle)",
+             "tungstenite 0.26: ideal message codec with read-ahead (assumed); message-io's own FramedTcp decoder is M1 (proved)"]
+STREAM_ASSUME = ["loopback only", "bounded-time delivery is proved down to 'nothing is left that only a new poll event could release'; the 4 s deadline after the last send (followed by silence) monitors the rest",
+                 "payload contents of generated messages are header + fill byte (long runs), sizes cover the prefix-width and read-buffer boundaries"]
+
+
+class C01(Prop):
+    id = "C01"
+    module = "MioModel.Props.C01"
+    bins = ["stream"]
+    run_bin = "stream"
+    rule = ("cases = loopback connections over FramedTcp and Ws: peers {message-io node, raw std TcpStream writer with "
+            "adversarial write boundaries in and around every prefix / raw reader, stock tungstenite client and server incl. "
+            "fragmented messages} x direction {connector->acceptor, acceptor->connector} x 1-8 sizes from {0,1,127,128,16383,"
+            "16384,65534,65535,65536,2^21-1,2^21,2^21+1, random} x burst shape {back-to-back, per message, 2 ms spacing, "
+            "adversarial}, always followed by silence and a 4 s delivery deadline; the received sequence is compared with "
+            "the model (send loop with partial writes -> wire -> cut as written -> receive loop -> decoder). non-trivial = "
+            "burst of >= 3 messages back to back (tag burst3) or a size on a prefix/read-buffer boundary (tag boundary); "
+            "distinct = by case line + scenario tags")
+    trusted_base = STREAM_TB
+    assumptions = STREAM_ASSUME
+
+    def nontrivial(self, case, tags):
+        return "burst3" in tags or "boundary" in tags
+
+    def tie(self, stats, tier, seed):
+        cmp = getattr(self, "compare", True)
+        th = tier == "thorough"
+        core.tie_run(stats, "stream", ["gen-e2e", seed, 400 if th else 60, "FW"], self.nontrivial, cmp)
+        if th:
+            core.tie_run(stats, "stream", ["gen-e2e", seed + 1, 40, "FW", "big"], self.nontrivial, cmp)
+
+    def search(self, tier, seed):
+        st = core.Stats()
+        core.tie_run(st, "stream", ["gen-e2e", seed + 2, 150, "FW"], self.nontrivial, False)
+        return st
+
+
+class C11(Prop):
+    id = "C11"
+    module = "MioModel.Props.C11"
+    bins = ["stream"]
+    run_bin = "stream"
+    rule = ("cases = loopback Tcp connections: node<->node, raw writer->node, node->raw reader, both directions, buffer "
+            "size sequences from 0 bytes to several hundred KiB (thorough: MiB) around the 65535-byte read buffer, burst / "
+            "spaced; compared by concatenation (length + hash) and by the chunk bounds (non-empty, <= INPUT_BUFFER_SIZE). "
+            "non-trivial = a buffer on the read-buffer boundary or a burst (tags boundary, burst3); distinct = by case line")
+    trusted_base = STREAM_TB
+    assumptions = STREAM_ASSUME
+
+    def nontrivial(self, case, tags):
+        return "burst3" in tags or "boundary" in tags
+
+    def tie(self, stats, tier, seed):
+        cmp = getattr(self, "compare", True)
+        th = tier == "thorough"
+        core.tie_run(stats, "stream", ["gen-e2e", seed + 4, 300 if th else 60, "T"], self.nontrivial, cmp)
+        if th:
+            core.tie_run(stats, "stream", ["gen-e2e", seed + 5, 40, "T", "big"], self.nontrivial, cmp)
+
+    def search(self, tier, seed):
+        st = core.Stats()
+        core.tie_run(st, "stream", ["gen-e2e", seed + 6, 150, "T"], self.nontrivial, False)
+        return st
+
+
+class C10(Prop):
+    id = "C10"
+    module = "MioModel.Props.C10"
+    bins = ["stream"]
+    run_bin = "stream"
+    rule = ("cases = 2/4/8 threads behind a barrier calling send() on one endpoint (FramedTcp, Ws, Udp), self-describing "
+            "payloads (thread, sequence, checksum) of 12 B .. 300 KB (several socket buffers, so writes go partial and hit "
+            "WouldBlock); the receiver's arrival order must be an interleaving of the per-thread sequences with every "
+            "payload intact; checked by the direct oracle and by the driver's history predicate. non-trivial = arrival order "
+            "interleaves threads (tag interleaved); distinct = by recorded arrival order")
+    trusted_base = STREAM_TB + ["std::sync::Mutex: mutual exclusion (the send lock / the Ws state mutex) (assumed)"]
+    assumptions = STREAM_ASSUME + ["UDP loss on a loaded loopback is inconclusive (tag udp-loss); corruption, duplication and reordering are not",
+                                    "sends from inside the callback are exercised through the node threads of the sending node"]
+
+    def nontrivial(self, case, tags):
+        return "interleaved" in tags
+
+    def tie(self, stats, tier, seed):
+        cmp = getattr(self, "compare", True)
+        core.tie_run(stats, "stream", ["gen-mt", seed, 36 if tier == "thorough" else 9, "FWU"], self.nontrivial, cmp)
+
+    def search(self, tier, seed):
+        st = core.Stats()
+        core.tie_run(st, "stream", ["gen-mt", seed + 1, 18, "FWU"], self.nontrivial, False)
+        return st
+
+    def reexecutable(self, case):
+        return False
+
+
 CONC_TB = [KERNEL, TIE, "model of events.rs written by hand (MioModel/EventQueueConc.lean): sender calls are single atomic enqueues, the receiver is split at every shared access",
            "crossbeam-channel: linearizable unbounded FIFO channels that never lose or invent an item; select! completes only on a ready operation and prefers ready operations over its timeout (assumed)",
            "the eager receiver schedule built by the driver is replayed through `step`, so it is a legal model execution"]
@@ -232,4 +330,4 @@ class C14(Prop):
         core.tie_run(stats, "rid", ["gen", seed, 300000 if tier == "thorough" else 20000], self.nontrivial, cmp)
 
 
-PROPS = {p.id: p() for p in [C02, C06, C07, C08, C14, C16, C17, C19]}
+PROPS = {p.id: p() for p in [C01, C02, C06, C07, C08, C10, C11, C14, C16, C17, C19]}
